@@ -315,4 +315,25 @@ PROPS = {
                              "heuristic:LOWEST_COST", "heuristic:LOWEST_MEMORY", "heuristic:RANDOM", "heuristic:LARC", "swap:VAR", "cases_with_warm_caches"],
         "assumptions": ASSUME_COMMON,
     },
+    "C16": {
+        "rule": ("each case: two domains, eight forests (MT int x2, MT real, MT bool, EV+ sets; identity-reduced relation and int/bool "
+                 "sets over the second domain) with random policies and a dozen held edges; 8-16 (quick) or all 22 (thorough) misuse "
+                 "classes in random order: operands/result from different domains (DOMAIN_MISMATCH), set/relation mix and range or "
+                 "labeling mismatch (TYPE_MISMATCH), createConstant with an edge of another forest (FOREST_MISMATCH), constants / "
+                 "minterm values / a PLUS result outside the terminal range (VALUE_OVERFLOW, the last one deep in the diagram after "
+                 "part of the result was built), zero divisor in one deep leaf for DIVIDE and MODULO (DIVIDE_BY_ZERO), infinite "
+                 "subtrahend (SUBTRACT_INFINITY), dereferencing an exhausted iterator (INVALID_ITERATOR), evaluating with a minterm of "
+                 "another domain or shape (DOMAIN_MISMATCH), and classes for which only 'some MEDDLY::error' is required (getElement on "
+                 "a non-index set, edges of a destroyed forest as operand / result / evaluated, CROSS of relations, MAX_RANGE with the "
+                 "wrong result type, variable out of range, index-set conversion into a non-index forest).  After every provoked "
+                 "error: every held edge re-evaluated everywhere, M1 audit of every forest, a legitimate operation per forest "
+                 "compared with the model; ASan/UBSan watch the unwinding.  non-trivial = every case; distinct = hash(domains, class order, tables)"),
+        "passes": {
+            "quick": [P("main", "asan", 500)],
+            "thorough": [P("main", "asan", 8000)],
+        },
+        "require_counters": ["errors_provoked", "aftermath_checks", "followup_operations", "class:DIVIDE:zero-divisor-deep-in-the-diagram",
+                             "class:edge-of-a-destroyed-forest:operand", "class:iterator:dereference-after-the-end", "class:binary:operands-from-different-domains"],
+        "assumptions": ASSUME_COMMON + ["reference counts are not asserted after a provoked error (the property does not promise leak-freedom on error paths)"],
+    },
 }
